@@ -2,8 +2,8 @@ import importlib.util, os
 _p = os.path.join(os.path.dirname(os.path.dirname(os.path.abspath(__file__))), "C07", "plan.py")
 _s = importlib.util.spec_from_file_location("plan_C07_for_C13", _p); _m = importlib.util.module_from_spec(_s); _s.loader.exec_module(_m)
 PLAN = dict(
-    id="C13", api_files=['tracing-subscriber/src/fmt/writer.rs', 'tracing-subscriber/src/fmt/fmt_subscriber.rs'], level="other", explanation="Writer combinators: WithMaxLevel, WithMinLevel, WithFilter, Tee (and), OrElse and a nested expression are each shown to reach exactly the recording sinks their definition denotes, for every level / predicate verdict, with one make_writer_for(meta) carrying the event's metadata and one write of the whole record per reached sink; Tee writes to both even if one fails and reports the error. Subscriber::on_event with an arbitrary FormatEvent (appends a record or fails): exactly one make_writer_for(event.metadata()), exactly one write whose bytes are exactly what this call formatted, nothing on a format error, and the next event on the thread carries nothing from the previous one. Record CONTENT and span-lifecycle events are not decided.",
-    functions_under_contract=['tracing-subscriber/src/fmt/writer.rs: MakeWriter for WithMaxLevel / WithMinLevel / WithFilter / Tee / OrElse, io::Write for Tee / EitherWriter, MakeWriterExt combinator constructors', 'fmt/fmt_subscriber.rs: Subscriber::on_event, make_ctx'],
+    id="C13", api_files=['tracing-subscriber/src/fmt/writer.rs', 'tracing-subscriber/src/fmt/fmt_subscriber.rs'], level="other", explanation="Writer combinators: WithMaxLevel, WithMinLevel, WithFilter, Tee (and), OrElse and a nested expression are each shown to reach exactly the recording sinks their definition denotes, for every level / predicate verdict, with one make_writer_for(meta) carrying the event's metadata and one write of the whole record per reached sink; Tee writes to both even if one fails and reports the error. Subscriber::on_event with an arbitrary FormatEvent (appends a record or fails): exactly one make_writer_for(event.metadata()), exactly one write whose bytes are exactly what this call formatted, nothing on a format error, and the next event on the thread carries nothing from the previous one. Record CONTENT and span-lifecycle events are not decided. Added after seeds C13-2 / C13-3: sinks that accept fewer bytes than offered (the whole newline-terminated record must still arrive) and every write method of Tee reaching both sinks even if one fails.",
+    functions_under_contract=['fmt/fmt_subscriber.rs: on_event hands over the WHOLE record also to a writer that accepts one byte per write; fmt/writer.rs: every io::Write method of Tee (write, write_all, write_vectored, flush)', 'tracing-subscriber/src/fmt/writer.rs: MakeWriter for WithMaxLevel / WithMinLevel / WithFilter / Tee / OrElse, io::Write for Tee / EitherWriter, MakeWriterExt combinator constructors', 'fmt/fmt_subscriber.rs: Subscriber::on_event, make_ctx'],
     trusted_base=["Kani 0.68 / CBMC 6.11 / CaDiCaL; Kani's std build (nightly-2026-08-21), not the repo toolchain's", 'core::fmt::Formatter::pad stubbed to Ok(()) with -Z stubbing (panic-message formatting on infeasible error branches; no harness that uses it reads formatted text)', 'cfg(kani) thread_local! shim and once_cell::sync::Lazy contract stub (see overlay_additions)', 'Pool::clear stub'],
     assumptions=['structural induction over combinator expressions (each node obligation machine-checked)', "concurrent writers: single write_all + the sink's own atomicity"],
     not_covered=['that the record names the level, spans in scope and every field, and is one line (text produced through core::fmt)', 'span lifecycle events (need real span extensions)', 'the stale-buffer-after-panic defect F6 (Kani does not model unwinding): found by a native test, repaired in /repo (27c2cb3)', 'BoxMakeWriter, MutexGuardWriter, TestWriter'],
